@@ -24,6 +24,11 @@ PAT1(nn, None, None)
 PAT1(in, start, None)
 PAT1(ni, None, stop)
 PAT1(ii, start, stop)
+// other part types: the constant Last (= ct<-1>) as stop, unsigned (size_t) parts
+PAT1(iL, start, nm::Last)
+PAT1(nL, None, nm::Last)
+PAT1(uuu, (size_t)(unsigned)start, (size_t)(unsigned)stop, (size_t)(unsigned)step)
+PAT1(uun, (size_t)(unsigned)start, (size_t)(unsigned)stop, None)
 
 // the same through the tuple dispatchers apply_shape_slice / apply_slice (what view::slice calls)
 KERNEL size_t K(k_apply_shape1_iii)(size_t n, int start, int stop, int step){
